@@ -32,11 +32,13 @@ type algoCfg struct {
 	WinThresh      int64
 	DebugLog       bool
 	Measure        string // vegas: "" (default) | minimum | single: caller-supplied no-load measurement
+	Ctor           string // "" = full constructor | "default" = the package's NewDefault… constructor (fields hold its documented parameters) | "default-with-limit" (Vegas)
+	WinDefault     bool   // the windowed wrapper is built with NewDefaultWindowedLimit
 }
 
 func (c algoCfg) String() string {
-	return fmt.Sprintf("%s{initial=%d min=%d max=%d smoothing=%g backoff=%g inc=%d probeMult=%d probeInterval=%d q=%d tol=%g longWindow=%d wrap=%q win=[%d,%d,%d,%d] debug=%v measure=%q}",
-		c.Name, c.Initial, c.Min, c.Max, c.Smoothing, c.Backoff, c.IncreaseBy, c.ProbeMult, c.ProbeInterval, c.QFix, c.Tolerance, c.LongWindow, c.Wrap, c.WinMin, c.WinMax, c.WinSize, c.WinThresh, c.DebugLog, c.Measure)
+	return fmt.Sprintf("%s{initial=%d min=%d max=%d smoothing=%g backoff=%g inc=%d probeMult=%d probeInterval=%d q=%d tol=%g longWindow=%d wrap=%q win=[%d,%d,%d,%d] debug=%v measure=%q ctor=%q windefault=%v}",
+		c.Name, c.Initial, c.Min, c.Max, c.Smoothing, c.Backoff, c.IncreaseBy, c.ProbeMult, c.ProbeInterval, c.QFix, c.Tolerance, c.LongWindow, c.Wrap, c.WinMin, c.WinMax, c.WinSize, c.WinThresh, c.DebugLog, c.Measure, c.Ctor, c.WinDefault)
 }
 
 type algo struct {
@@ -109,6 +111,23 @@ func drawAlgoCfg(t *Tape, names []string, wraps []string) algoCfg {
 		c.LongWindow = []int{600, 1, 10, 100, 50}[t.Intn(5, "long-window")]
 	case "settable", "fixed":
 	}
+	if t.Chance(8, "default-ctor") {
+		// the NewDefault… constructors are valid configurations too; the fields carry their documented parameters
+		switch c.Name {
+		case "aimd":
+			c.Ctor, c.Initial, c.Backoff, c.IncreaseBy = "default", 10, 0.9, 1
+		case "vegas":
+			c.Ctor, c.Max, c.Smoothing, c.ProbeMult, c.Measure = "default-with-limit", 1000, 1.0, 30, ""
+			if c.Initial > 1000 {
+				c.Initial = 1000
+			}
+			if t.Chance(50, "vegas-full-default") {
+				c.Ctor, c.Initial = "default", 20
+			}
+		case "gradient2":
+			c.Ctor, c.Initial, c.Max, c.Min, c.QFix, c.Smoothing, c.LongWindow = "default", 20, 200, 20, 4, 0.2, 600
+		}
+	}
 	if len(wraps) > 0 {
 		c.Wrap = wraps[t.Intn(len(wraps), "wrap")]
 	}
@@ -118,6 +137,9 @@ func drawAlgoCfg(t *Tape, names []string, wraps []string) algoCfg {
 		c.WinSize = int32(10 + t.Intn(5, "win-size"))
 		c.WinThresh = []int64{0, 1e5, 1e6, 50}[t.Intn(4, "win-thresh")]
 		c.DebugLog = t.Intn(2, "debug-log") == 1
+		if t.Chance(8, "default-windowed") {
+			c.WinDefault, c.WinMin, c.WinMax, c.WinSize, c.WinThresh = true, 1e9, 1e9, 10, 1e8
+		}
 	}
 	return c
 }
@@ -150,6 +172,9 @@ func buildAlgo(c algoCfg, withRegistry bool) (*algo, error) {
 	switch c.Name {
 	case "aimd":
 		l := limit.NewAIMDLimit("aimd", c.Initial, c.Backoff, c.IncreaseBy, reg)
+		if c.Ctor == "default" {
+			l = limit.NewDefaultAIMDLimit("aimd", reg)
+		}
 		a.Inner = l
 		a.Lo, a.Hi = 1, math.MaxInt32
 	case "vegas":
@@ -161,6 +186,12 @@ func buildAlgo(c algoCfg, withRegistry bool) (*algo, error) {
 			meas = &measurements.SingleMeasurement{}
 		}
 		l := limit.NewVegasLimitWithRegistry("vegas", c.Initial, meas, c.Max, c.Smoothing, nil, nil, nil, nil, nil, c.ProbeMult, lg, reg)
+		switch c.Ctor {
+		case "default":
+			l = limit.NewDefaultVegasLimit("vegas", lg, reg)
+		case "default-with-limit":
+			l = limit.NewDefaultVegasLimitWithLimit("vegas", c.Initial, lg, reg)
+		}
 		a.Inner = l
 		a.Lo, a.Hi = 1, maxInt(c.Max, c.Initial)
 		a.NoLoad = l.RTTNoLoad
@@ -183,6 +214,9 @@ func buildAlgo(c algoCfg, withRegistry bool) (*algo, error) {
 		if err != nil {
 			return nil, err
 		}
+		if c.Ctor == "default" {
+			l = limit.NewDefaultGradient2Limit("gradient2", lg, reg)
+		}
 		a.Inner = l
 		a.Lo, a.Hi = maxInt(1, c.Min), maxInt(c.Max, c.Initial)
 	case "settable":
@@ -196,6 +230,9 @@ func buildAlgo(c algoCfg, withRegistry bool) (*algo, error) {
 	}
 	a.Lim = a.Inner
 	wrapWindowed := func(d core.Limit) (core.Limit, error) {
+		if c.WinDefault {
+			return limit.NewDefaultWindowedLimit("windowed", d, reg), nil
+		}
 		return limit.NewWindowedLimit("windowed", c.WinMin, c.WinMax, c.WinSize, c.WinThresh, d, reg)
 	}
 	var err error
